@@ -111,6 +111,50 @@ def main():
         return re.findall(r"(\w+)\s+(\w+)\s*=\s*(\d+);", re.sub(r"//[^\n]*", "", m.group(1)))
     preq, presp = fields("ThrottleRequest"), fields("ThrottleResponse")
 
+    # ---- wire mappings (C12): which library field lands in which wire position ----------------
+    types = strip_comments(src("throttlecrab-server/src/types.rs"))
+    body = re.search(r"impl From<\(bool, RateLimitResult\)> for ThrottleResponse \{(.*?)\n\}\n", types, re.S).group(1)
+    types_map = re.findall(r"^\s*(\w+)(?::\s*([^,\n]+))?,\s*$", re.search(r"ThrottleResponse \{(.*?)\}", body, re.S).group(1), re.M)
+    types_map = [(a, (b or a).strip()) for a, b in types_map]
+    grpc = strip_comments(src("throttlecrab-server/src/transport/grpc.rs"))
+    gresp = re.search(r"let response = ThrottleResponse \{(.*?)\};", grpc, re.S)
+    if not gresp:
+        raise KeyError("grpc response literal")
+    grpc_resp = [(a, b.strip()) for a, b in re.findall(r"^\s*(\w+):\s*([^,\n]+),\s*$", gresp.group(1), re.M)]
+    greq = re.search(r"let actor_request = ActorRequest \{(.*?)\};", grpc, re.S)
+    if not greq:
+        raise KeyError("grpc request literal")
+    grpc_req = [(a, (b or a).strip()) for a, b in re.findall(r"^\s*(\w+)(?::\s*([^,\n]+))?,\s*$", greq.group(1), re.M)]
+    http = strip_comments(src("throttlecrab-server/src/transport/http.rs"))
+    hreq = re.search(r"let internal_req = InternalRequest \{(.*?)\};", http, re.S)
+    if not hreq:
+        raise KeyError("http request literal")
+    http_req = [(a, (b or a).strip()) for a, b in re.findall(r"^\s*(\w+)(?::\s*([^,\n]+))?,\s*$", hreq.group(1), re.M)]
+    rreply = re.search(r"Ok\(response\) => \{\s*RespValue::Array\(vec!\[(.*?)\]\)", rmod, re.S)
+    if not rreply:
+        raise KeyError("resp reply literal")
+    resp_reply = re.findall(r"response\.(\w+)", rreply.group(1))
+    rargs = []
+    for nm in ("max_burst", "count_per_period", "period"):
+        m = need(rmod, r"let " + nm + r" = match parse_integer\(&args\[(\d+)\]\)", "RESP arg " + nm)
+        rargs.append((nm, int(m.group(1))))
+    m = need(rmod, r"let key = match &args\[(\d+)\]", "RESP key arg")
+    rargs.insert(0, ("key", int(m.group(1))))
+    m = re.search(r"let quantity = if args\.len\(\) == (\d+) \{\s*match parse_integer\(&args\[(\d+)\]\)(.*?)\} else \{\s*(\d+)\s*\};", rmod, re.S)
+    if not m:
+        raise KeyError("RESP quantity block")
+    rargs.append(("quantity", int(m.group(2))))
+    add("RESP_DEFAULT_QUANTITY", int(m.group(4)), "redis/mod.rs quantity when the 6th argument is omitted")
+    add("RESP_THROTTLE_FULL_ARITY", int(m.group(1)), "redis/mod.rs args.len() with explicit quantity")
+    m = need(rmod, r"args\.len\(\) < (\d+) \|\| args\.len\(\) > (\d+)", "RESP arity check")
+    add("RESP_THROTTLE_MIN_ARGS", int(m.group(1)), "redis/mod.rs arity lower bound")
+    add("RESP_THROTTLE_MAX_ARGS", int(m.group(2)), "redis/mod.rs arity upper bound")
+    m = need(http, r"quantity:\s*req\.quantity\.unwrap_or\((\d+)\)", "HTTP default quantity")
+    add("HTTP_DEFAULT_QUANTITY", int(m.group(1)), "http.rs quantity.unwrap_or")
+
+    def pairs(name, doc, xs):
+        return [f"/-- {doc} -/", f"def {name} : List (String × String) := [" + ", ".join(f'("{a}", "{b}")' for a, b in xs) + "]"]
+
     lines = ["/- GENERATED by verif/translate/translate.py from /repo's sources on every run. Do not edit. -/",
              "namespace TcVerif.Gen", ""]
     for n, v, c in items:
@@ -125,6 +169,14 @@ def main():
     lines.append("def PROTO_REQUEST : List (String × String × Nat) := [" + ", ".join(f'("{t}", "{n}", {k})' for t, n, k in preq) + "]")
     lines.append("/-- (type, name, number) of throttlecrab.proto ThrottleResponse -/")
     lines.append("def PROTO_RESPONSE : List (String × String × Nat) := [" + ", ".join(f'("{t}", "{n}", {k})' for t, n, k in presp) + "]")
+    lines += pairs("TYPES_RESPONSE_MAP", "types.rs `From<(bool, RateLimitResult)> for ThrottleResponse`: (wire field, source expression)", types_map)
+    lines += pairs("GRPC_RESPONSE_MAP", "grpc.rs response literal: (proto field, source expression)", grpc_resp)
+    lines += pairs("GRPC_REQUEST_MAP", "grpc.rs ActorRequest literal: (request field, source expression)", grpc_req)
+    lines += pairs("HTTP_REQUEST_MAP", "http.rs InternalRequest literal: (request field, source expression)", http_req)
+    lines.append("/-- redis/mod.rs: the response fields in the order of the 5-integer reply array -/")
+    lines.append("def RESP_REPLY_FIELDS : List String := [" + ", ".join(f'"{x}"' for x in resp_reply) + "]")
+    lines.append("/-- redis/mod.rs: which command-array index feeds which request field -/")
+    lines.append("def RESP_ARG_INDEX : List (String × Nat) := [" + ", ".join(f'("{a}", {b})' for a, b in rargs) + "]")
     lines += ["", "end TcVerif.Gen", ""]
     text = "\n".join(lines)
     os.makedirs(os.path.dirname(OUT), exist_ok=True)
